@@ -483,6 +483,8 @@ def _extract_model(model, mk, bound_n=None):
             vals[name] = [None if ev(obj.fnat(z3.IntVal(i))) else ev(obj.fsec(z3.IntVal(i))) for i in range(n)]
         elif kind == "dt":
             vals[name] = ev(obj)
+        elif kind == "custom":
+            vals[name] = obj(ev)
         elif kind in ("real", "int"):
             vals[name] = ev(obj.val)
         elif kind == "bool":
@@ -490,31 +492,27 @@ def _extract_model(model, mk, bound_n=None):
     return vals
 
 
-def jsonable(vals):
-    out = {}
-    for k, v in vals.items():
-        if isinstance(v, list):
-            out[k] = [None if x is None else (str(x) if isinstance(x, Fraction) else x) for x in v]
-        elif isinstance(v, Fraction):
-            out[k] = str(v)
-        else:
-            out[k] = v
-    return out
+def jsonable(v):
+    if isinstance(v, dict):
+        return {k: jsonable(x) for k, x in v.items()}
+    if isinstance(v, (list, tuple)):
+        return [jsonable(x) for x in v]
+    if isinstance(v, Fraction):
+        return str(v) if v.denominator != 1 else int(v)
+    return v
 
 
-def unjson(vals):
-    out = {}
-    for k, v in vals.items():
-        if isinstance(v, list):
-            out[k] = [None if x is None else (Fraction(x) if isinstance(x, str) else x) for x in v]
-        elif isinstance(v, str):
-            try:
-                out[k] = Fraction(v)
-            except ValueError:
-                out[k] = v
-        else:
-            out[k] = v
-    return out
+def unjson(v):
+    if isinstance(v, dict):
+        return {k: unjson(x) for k, x in v.items()}
+    if isinstance(v, list):
+        return [unjson(x) for x in v]
+    if isinstance(v, str):
+        try:
+            return Fraction(v)
+        except ValueError:
+            return v
+    return v
 
 
 def _refute_small(assumptions, neg_goal, mk, timeout_ms):
@@ -720,6 +718,24 @@ def verify_case(T, case, timeout_ms=None, want=None, exclude=None):
         obc.status = "error"
         obc.detail = "no feasible returning path: requires is contradictory or the function always raises"
     out.append(obc)
+
+    # ---- loop cuts: establishment and preservation of the invariants (all paths)
+    lobs = {}
+    for p in paths:
+        for (phase, lname, n_, goal) in p.loop_obligations:
+            ki = z3.Int("k!loop")
+            parts = goal(ki)
+            seeds = [alg.add(ki, o) for o in case.index_offsets]
+            for part, f in parts.items():
+                short = "loop.%s.%s.%s" % (lname, phase, part)
+                if not want(short):
+                    continue
+                ob = lobs.setdefault(short, mkob(short, "loop"))
+                if ob.status == "discharged":
+                    _check_valid(ob, p, mk, alg.implies(in_range(ki, n_), f), timeout_ms, seeds, extra=excl(short, p.env[0]))
+    for ob in lobs.values():
+        ob.queries = max(ob.queries, 1)
+    out.extend(lobs.values())
 
     # ---- postconditions
     obs = {}
